@@ -93,6 +93,9 @@ func init() {
 	// Update CurrINF`, New: `	s.PathMeta.CurrHF++
 	s.PathMeta.SegLen[2] = 0
 	// Update CurrINF`, Expect: "W2-current-index"},
+		Mutant{Prop: "C07", Name: "ohp-header-end-rounded", File: dp,
+			Old: `	payloadOffset := len(rawPkt) - len(s.LayerPayload())`,
+			New: `	payloadOffset := (len(rawPkt) - len(s.LayerPayload())) &^ 3`, Expect: "W5-reserialization"},
 		Mutant{Prop: "C07", Name: "scion-layer-rewritten-on-egress", File: dp,
 			Old: `	if err := p.path.IncPath(); err != nil {
 		// TODO parameter problem invalid path
@@ -336,6 +339,41 @@ func runC07(c *Ctx) {
 		ok := len(callers) == 1 && callers[procT+".processOHP"] >= 1
 		c.Check(ok, rule, "router.updateSCIONLayer:callers", upd.Pos(), fmt.Sprintf("called from %v; only the one-hop path "+
 			"completion may re-serialize the SCION header", callers))
+	}
+	// the re-serialized SCION header ends exactly where the SCION layer's payload
+	// (extension headers included) begins, in the packet it was parsed from
+	if v := c.View("router.updateSCIONLayer"); v != nil {
+		sers := v.Calls("(*pkg/slayers.SCION).SerializeTo")
+		starts := v.Calls("router.newSerializeProxyStart")
+		ok := len(sers) == 1 && len(starts) == 1
+		detail := fmt.Sprintf("%d SerializeTo, %d newSerializeProxyStart", len(sers), len(starts))
+		if ok {
+			s := sers[0].Args[0]
+			want1 := "(builtin:len(arg0) - builtin:len((*pkg/slayers.SCION).LayerPayload(" + s + ")))"
+			want2 := "(builtin:len(arg0) - builtin:len(" + s + ".BaseLayer.Payload))"
+			got := starts[0].Args[1]
+			ok = starts[0].Args[0] == "arg0" && (got == want1 || got == want2) && sers[0].Args[1] == "local:serBuf" &&
+				instrDominates(starts[0].In, sers[0].In)
+			detail = "header serialized by " + s + ".SerializeTo into a proxy of " + starts[0].Args[0] + " that starts at " + got +
+				"; required len(rawPkt) - len(<that layer's payload>)"
+		}
+		c.Check(ok, rule, v.Name()+":header-end-is-scion-payload-start", v.Fn.Pos(), detail)
+	}
+	if v := c.View(procT + ".processOHP"); v != nil {
+		v.RequireCallArgs(rule, 2, "router.updateSCIONLayer", "recv.pkt.RawPacket")
+		// the layer handed over is the processor's own decoded SCION layer
+		okL := true
+		for _, ci := range v.Calls("router.updateSCIONLayer") {
+			l := v.Leaves(ci.In.Common().Args[1], 1)
+			found := false
+			for k := range l {
+				if k == "recv.scionLayer" || strings.HasPrefix(k, "recv.scionLayer") {
+					found = true
+				}
+			}
+			okL = okL && found
+		}
+		c.Check(okL, rule, v.Name()+":updateSCIONLayer-layer", v.Fn.Pos(), "the layer re-serialized is the processor's decoded scionLayer")
 	}
 	// the packet slice is never re-sliced or replaced on the forwarding path
 	nres := 0
